@@ -10,7 +10,7 @@ ID = "C02"
 LEVEL = "proof"
 PROPS = "props/C02.v"
 RUNNER = ("Gen.Gen_C02", "run_case")
-STATIC_MODULES = ["SAV.sql.CacheKeyRun", "SAV.sql.CacheKeyMain", "SAV.sql.CacheKeyRef"]
+STATIC_MODULES = ["SAV.sql.CacheKeyRun", "SAV.sql.CacheKeyMain", "SAV.sql.CacheKeyRef", "SAV.sql.CacheKeyTypes"]
 
 RULE = (
     "PAIRS: generated Core statement families (select with operators/functions/CASE/CAST/OVER/IN/EXISTS/labels/"
@@ -91,6 +91,9 @@ ANCHORS = [
     ("lib/sqlalchemy/sql/schema.py", "Table._gen_cache_key"),
     ("lib/sqlalchemy/sql/elements.py", "ClauseElement._compile_w_cache"),
     ("lib/sqlalchemy/sql/compiler.py", "SQLCompiler.construct_params"),
+    ("lib/sqlalchemy/engine/default.py", "DefaultExecutionContext._init_compiled"),
+    ("lib/sqlalchemy/sql/type_api.py", "TypeEngine._static_cache_key"),
+    ("lib/sqlalchemy/util/langhelpers.py", "get_cls_kwargs"),
     ("lib/sqlalchemy/util/_collections.py", "LRUCache.get"),
     ("lib/sqlalchemy/util/_collections.py", "LRUCache.__setitem__"),
     ("lib/sqlalchemy/util/_collections.py", "LRUCache._manage_size"),
@@ -494,6 +497,31 @@ def _classify(cls, a, stored):
     return "field" if a in stored else "const"
 
 
+def type_skip_mode():
+    """the skip test of TypeEngine._static_cache_key, read from its source: 'SkipNone' for
+    `self.__dict__[k] is not None`, 'SkipFalsy' for a bare truthiness test; anything else fails closed"""
+    from sqlalchemy.sql.type_api import TypeEngine
+
+    fn = TypeEngine.__dict__["_static_cache_key"]
+    fn = getattr(fn, "fget", fn)
+    fa = _fn_ast(fn)
+    gens = [n for n in ast.walk(fa) if isinstance(n, ast.GeneratorExp)]
+    if len(gens) != 1 or len(gens[0].generators) != 1:
+        raise RuntimeError("_static_cache_key: unexpected shape")
+    conds = gens[0].generators[0].ifs
+    if len(conds) == 1 and isinstance(conds[0], ast.BoolOp) and isinstance(conds[0].op, ast.And):
+        conds = conds[0].values
+    texts = [ast.unparse(c) for c in conds]
+    want = ["k in self.__dict__", "not k.startswith('_')"]
+    if texts[:2] != want or len(texts) != 3:
+        raise RuntimeError("_static_cache_key: unexpected conditions %r" % (texts,))
+    if texts[2] == "self.__dict__[k] is not None":
+        return "SkipNone"
+    if texts[2] == "self.__dict__[k]":
+        return "SkipFalsy"
+    raise RuntimeError("_static_cache_key: unknown skip test %r" % texts[2])
+
+
 _FACTS = None
 
 
@@ -578,7 +606,7 @@ def facts(_=None):
         for a in e["V"]:
             if (e["visit"], a) in GAPS:
                 gaps.append([e["id"], aid[a]])
-    _FACTS = {"classes": T, "attr_id": aid, "gaps": gaps, "problems": problems, "reads": R}
+    _FACTS = {"classes": T, "attr_id": aid, "gaps": gaps, "problems": problems, "reads": R, "type_skip": type_skip_mode()}
     return _FACTS
 
 
@@ -640,14 +668,20 @@ def translate(repo, outdir):
     src = (
         "(* generated on every run from the running sqlalchemy source - do not edit *)\n"
         "From Coq Require Import List NArith ZArith Bool.\nImport ListNotations.\n"
-        "From SAV.base Require Import Tree.\nFrom SAV.sql Require Import CacheKey CacheKeyRun.\n\n"
+        "From SAV.base Require Import Tree.\nFrom SAV.sql Require Import CacheKey CacheKeyTypes CacheKeyRun.\n\n"
         + _coq_tables(f)
-        + "\nDefinition gen_tabs : tabs := mkTabs gen_T gen_V gen_G.\nDefinition run_case := run_with gen_tabs.\n"
+        + "\n(* the skip test found in TypeEngine._static_cache_key *)\nDefinition gen_skip : skipmode := %s.\n" % f["type_skip"]
+        + "\nDefinition gen_tabs : tabs := mkTabs gen_T gen_V gen_G gen_skip.\nDefinition run_case := run_with gen_tabs.\n"
     )
     src2 = (
         "(* generated on every run - per-run obligations about the regenerated tables *)\n"
         "From Coq Require Import List NArith ZArith Bool.\nImport ListNotations.\n"
-        "From SAV.sql Require Import CacheKey CacheExec CacheKeyMain.\nFrom SAV.props Require Import C02.\nRequire Import Gen.Gen_C02.\n\n"
+        "From SAV.sql Require Import CacheKey CacheExec CacheKeyMain CacheKeyTypes.\nFrom SAV.props Require Import C02.\nRequire Import Gen.Gen_C02.\n\n"
+        "(* the type component of every key: the static cache key skips exactly the arguments that are None *)\n"
+        "Lemma gen_type_skip_is_none_test : gen_skip = SkipNone.\nProof. reflexivity. Qed.\n"
+        "Theorem gen_c02_type_key_injective : forall a1 a2 : list targ, length a1 = length a2 ->\n"
+        "  tkey gen_skip a1 = tkey gen_skip a2 -> map eff a1 = map eff a2.\n"
+        "Proof. rewrite gen_type_skip_is_none_test. exact c02_type_key_injective. Qed.\n"
         "(* every attribute the compiler reads is in the class's cache key, except the known gaps *)\n"
         "Lemma gen_covers_guarded : covers gen_T (vminus gen_V gen_G) = true.\nProof. vm_compute; reflexivity. Qed.\n"
         "(* ... and the gaps are real: without the exception the check fails (remove the gap entry once fixed) *)\n"
@@ -663,7 +697,7 @@ def translate(repo, outdir):
         "  (forall s, In s (stmts (h1 ++ h2)) -> wf gen_T s = true /\\ gapfree gen_G s = true) ->\n"
         "  cunib gen_T (stmts (h1 ++ h2)) = true ->\n"
         "  fst (run gen_T gen_V SQL render (snd (run gen_T gen_V SQL render [] h1)) h2)\n"
-        "  = map (fun x => exec_direct gen_T gen_V SQL render (s_ctx x) (s_stmt x)) h2.\n"
+        "  = map (fun x => exec_direct gen_T gen_V SQL render (s_ctx x) (s_stmt x) (s_sets x)) h2.\n"
         "Proof. exact (c02_cached_exec_eq_direct_guarded gen_T gen_V gen_G gen_covers_guarded). Qed.\n"
         "Print Assumptions gen_c02_key_determines_sql.\nPrint Assumptions gen_c02_cached_exec_eq_direct.\n"
     ) % ("false" if f["gaps"] else "true")
@@ -688,16 +722,18 @@ SEL = {
     "distinct": 2, "order": 6, "limit": 3, "offset": 2, "group": 2, "frm": 10, "setop": 5, "prefix": 3, "fu": 2,
     "hint": 2, "fname": 4, "casttype": 3, "over": 5, "corr": 2, "pm": 3, "neg": 3, "col2": 2, "aname": 2,
 }
-DML = {"kind": 3, "vals": 6, "v": 4, "v2": 3, "vs": 3, "ret": 3, "onc": 4, "dwhere": 3, "inline": 2, "prefix": 2, "pk": 4, "incdef": 2}
+DML = {"kind": 3, "vals": 6, "v": 4, "v2": 3, "vs": 3, "ret": 3, "onc": 4, "dwhere": 3, "inline": 2, "prefix": 2, "pk": 4, "incdef": 2, "many": 2}
+TYPES = {"tcls": 32, "arg": 5, "va": 7, "v": 4}   # class / argument indices beyond the catalogue are skipped
+SIB = {"va": 4, "vb": 4}
 ORM = {"ent": 4, "where": 4, "v": 4, "join": 3, "opt": 7, "order": 2, "limit": 2, "alias": 2}
 LITERAL_COORDS = {"v", "v2", "vs", "pk", "pm"}  # coordinates that only change values (pm: where the value of "p" comes from)
-FAMS = {"select": SEL, "dml": DML, "orm": ORM}
+FAMS = {"select": SEL, "dml": DML, "orm": ORM, "types": TYPES, "sib": SIB}
 
 _S = {}
 
 
 def _schema():
-    if _S:
+    if "t" in _S:
         return _S
     from sqlalchemy import Boolean, Column, DateTime, ForeignKey, Integer, MetaData, String, Table
     from sqlalchemy.orm import declarative_base, relationship
@@ -905,13 +941,21 @@ def build_dml(p):
     S = _schema()
     t, u = S["t"], S["u"]
     v, v2, vs = INTS[p.get("v", 0)], INTS2[p.get("v2", 0)], STRS[p.get("vs", 0)]
-    pk = 100 + p.get("pk", 0)
+    from sqlalchemy import bindparam
+
+    pk = 100 + 10 * p.get("pk", 0)
     kind = p.get("kind", 0)
+    many = p.get("many", 0)  # executemany: the per-row values arrive as 3 parameter sets, literals stay in the statement
     params = None
     if kind == 0:
         s = sqlite_insert(t)
         vk = p.get("vals", 0)
-        if vk == 0:
+        if many and vk in (0, 1):
+            s = s.values(x=v) if vk == 0 else s.values(x=v, s=vs)
+            params = [{"id": pk + i} for i in range(3)]
+        elif many and vk in (2, 3):
+            params = [dict({"id": pk + i, "x": v + i}, **({"s": vs} if vk == 3 else {})) for i in range(3)]
+        elif vk == 0:
             s = s.values(id=pk, x=v)
         elif vk == 1:
             s = s.values(id=pk, x=v, s=vs)
@@ -946,11 +990,17 @@ def build_dml(p):
         else:
             params = {"x": v, "s": vs}
         dw = p.get("dwhere", 0)
-        s = s.where(t.c.id == v2) if dw == 0 else (s.where(t.c.x > v2) if dw == 1 else s.where(t.c.id.in_([v2, v2 + 1])))
+        s = s.where(t.c.id <= v2 + 4) if dw == 0 else (s.where(t.c.x > v2 - 3) if dw == 1 else s.where(t.c.id.in_([v2, v2 + 1])))
+        if many:
+            s = s.where(t.c.id == bindparam("b_id"))
+            params = [dict(params or {}, b_id=v2 - 1 + i) for i in range(3)]
     else:
         s = delete(t)
         dw = p.get("dwhere", 0)
-        s = s.where(t.c.id == v2) if dw == 0 else (s.where(t.c.x > v2) if dw == 1 else s.where(t.c.id.in_([v2, v2 + 1])))
+        s = s.where(t.c.id <= v2 + 4) if dw == 0 else (s.where(t.c.x > v2 - 3) if dw == 1 else s.where(t.c.id.in_([v2, v2 + 1])))
+        if many:
+            s = s.where(t.c.id == bindparam("b_id"))
+            params = [{"b_id": v2 - 1 + i} for i in range(3)]
     r = p.get("ret", 0)
     if r == 1:
         s = s.returning(t.c.id)
@@ -1008,8 +1058,91 @@ def build_orm(p):
     return s
 
 
+_TYPE_DOMAIN = [None, 0, False, "", 2, True, "%(year)04d/%(month)02d/%(day)02d %(hour)02d.%(minute)02d.%(second)02d"]
+_TYPE_PAIRS_QUICK = [(0, 1), (0, 2), (0, 3), (0, 4), (2, 4), (0, 6)]
+_TYPE_PAIRS_ALL = [(i, j) for i in range(7) for j in range(i + 1, 7) if (i, j) != (1, 2)]  # 0 == False in Python: one key by definition
+
+
+def type_catalogue():
+    """[(type class, [constructor argument names])]: the generic and SQLite types in scope that can be built
+    without arguments; the argument names are util.get_cls_kwargs(cls), as _static_cache_key uses them"""
+    if "types" in _S:
+        return _S["types"]
+    from sqlalchemy import types as sqltypes
+    from sqlalchemy import util
+    from sqlalchemy.dialects.sqlite import base as sqlite_base
+
+    names = ["String", "Text", "Unicode", "Integer", "BigInteger", "Numeric", "Float", "Double", "DateTime", "Date", "Time",
+             "Boolean", "LargeBinary", "Interval", "JSON", "Uuid", "NUMERIC", "DECIMAL", "FLOAT", "REAL", "VARCHAR", "CHAR", "TIMESTAMP"]
+    out = []
+    for mod, nm in [(sqltypes, n) for n in names] + [(sqlite_base, n) for n in ("DATETIME", "DATE", "TIME", "JSON")]:
+        cls = getattr(mod, nm, None)
+        if cls is None:
+            continue
+        try:
+            cls()
+        except Exception:
+            continue
+        args = sorted(a for a in util.get_cls_kwargs(cls) if not a.startswith("_"))
+        if args:
+            out.append((cls, args))
+    _S["types"] = out
+    return out
+
+
+def build_type(p):
+    """the type instance of a 'types' recipe: class tcls with its argument number arg set to the domain value
+    va (None = not given); -> instance or None when out of range / the constructor rejects the value"""
+    cat = type_catalogue()
+    if p.get("tcls", 0) >= len(cat) or p.get("arg", 0) >= len(cat[p.get("tcls", 0)][1]):
+        return None
+    cls, args = cat[p.get("tcls", 0)]
+    a = args[p.get("arg", 0)]
+    val = _TYPE_DOMAIN[p.get("va", 0)]
+    try:
+        return cls() if val is None else cls(**{a: val})
+    except Exception:
+        return None
+
+
+def build_types(p):
+    from sqlalchemy import String, bindparam, cast, literal_column, select, type_coerce
+
+    S = _schema()
+    t = S["t"]
+    ty = build_type(p)
+    if ty is None:
+        ty = String()
+    import datetime
+
+    v = INTS[p.get("v", 0)]
+    try:
+        pt = ty.python_type
+    except Exception:
+        pt = int
+    v = {datetime.datetime: datetime.datetime(2020, 1, v, 3, 4, 5), datetime.date: datetime.date(2020, 1, v),
+         datetime.time: datetime.time(3, 4, v), str: "s%d" % v}.get(pt, v)
+    return select(t.c.id, cast(t.c.x, ty).label("c"), type_coerce(literal_column("12.75"), ty).label("tc"),
+                  type_coerce(t.c.y, ty).label("ty")).where(t.c.x != bindparam(None, v, type_=ty)).order_by(t.c.id), None
+
+
+def build_sib(p):
+    """two sibling subqueries that each carry a statement-level parameter set for the same name"""
+    from sqlalchemy import bindparam, select
+
+    S = _schema()
+    t = S["t"]
+    a = select(t.c.id).where(t.c.x == bindparam("v")).params(v=INTS[p.get("va", 0)]).subquery("a")
+    b = select(t.c.id).where(t.c.x == bindparam("v")).params(v=INTS[p.get("vb", 0)]).subquery("b")
+    return select(a.c.id, b.c.id).order_by(a.c.id, b.c.id), None
+
+
 def build(fam, p):
     """-> (statement, execution parameters or None)"""
+    if fam == "types":
+        return build_types(p)
+    if fam == "sib":
+        return build_sib(p)
     if fam == "select":
         return build_select(p)
     if fam == "dml":
@@ -1355,6 +1488,8 @@ def canon_recipe(fam, p):
             q["prefix"] = 0
         if k == 2:
             q["vals"] = 0
+        if q["vals"] in (4, 5) and k == 0:
+            q["many"] = 0
     elif fam == "orm":
         if q["ent"] not in (0, 2):
             q["opt"] = 0
@@ -1446,6 +1581,11 @@ def _execute(size, stmt, params, nocache, orm):
                 cc = c.execution_options(compiled_cache=None) if nocache else c
                 res = cc.execute(stmt, params) if params else cc.execute(stmt)
                 rows = _rows(res, False)
+                if getattr(stmt, "is_dml", False):  # the effect on the table, before it is rolled back
+                    logged = list(log)
+                    rows = rows + [["table"] + [repr(tuple(r)) for r in c.exec_driver_sql("select id, x, y, s from t order by id").fetchall()]]
+                    del log[:]
+                    log.extend(logged)
                 c.rollback()
     except Exception as ex:  # the same exception must come with and without the cache
         rows = ["EXC", type(ex).__name__]
@@ -1502,15 +1642,50 @@ def _sqlite_dialect():
     return _S["d"]
 
 
+def _psets(params):
+    """the parameter sets of an execution: [] (none), one, or several (executemany)"""
+    if not params:
+        return []
+    return list(params) if isinstance(params, list) else [params]
+
+
+def _pkeys(params):
+    ps = _psets(params)
+    return (tuple(sorted(ps[0])) if ps else (), len(ps) > 1)
+
+
+def _ckw(params):
+    ps = _psets(params)
+    kw = {"column_keys": sorted(ps[0])} if ps else {}
+    if len(ps) > 1:
+        kw["for_executemany"] = True
+    return kw
+
+
+def _type_args(ty, it):
+    """per constructor argument name of the class: [k in __dict__ (public names only), value atom]"""
+    from sqlalchemy import util
+    from sqlalchemy.sql.type_api import TypeEngine
+
+    out = []
+    for k in util.get_cls_kwargs(type(ty)):
+        present = k in ty.__dict__ and not k.startswith("_")
+        v = ty.__dict__.get(k)
+        if isinstance(v, TypeEngine):
+            v = ("type", v._static_cache_key)
+        out.append([1 if present else 0] + it.atom(v))
+    return out
+
+
 def _compile_facts(stmt, params):
     d = _sqlite_dialect()
-    kw = {"column_keys": sorted(params)} if params else {}
+    kw = _ckw(params)
     try:
         c = stmt.compile(dialect=d, **kw)
     except Exception as ex:  # a statement that does not compile must not compile under an equal key either
         return None, "does not compile: %s" % type(ex).__name__, [], []
     names = list(c.positiontup or [])
-    types = [repr(c.binds[n].type._static_cache_key) for n in names]
+    types = [c.binds[n].type._static_cache_key for n in names]
     return c, str(c), names, types
 
 
@@ -1524,6 +1699,18 @@ def impl_pair(c):
     obs = {"viol": None, "model_in": [9], "model_out": [-999], "modelled": 0, "diff": diff}
     e1, e2 = Encoder(it), Encoder(it)
     try:
+        if fam == "types":
+            t1, t2 = build_type(c["a"]), build_type(c["b"])
+            if t1 is None or t2 is None:
+                obs["unsupported"] = "no such type / argument value rejected by the constructor"
+                return obs
+            k1, k2 = t1._static_cache_key, t2._static_cache_key
+            cls_, args_ = type_catalogue()[c["a"]["tcls"]]
+            tag += " [type-arg: %s.%s]" % (cls_.__name__, args_[c["a"]["arg"]])
+            obs["model_in"] = [2, _type_args(t1, it), _type_args(t2, it)]
+            obs["model_out"] = 1 if k1 == k2 else 0
+            obs["modelled"] = 1
+            raise Unsupported("")
         if not c.get("model", True):
             raise Unsupported("oracle only")
         n1, n2 = e1.encode(s1), e2.encode(s2)
@@ -1535,12 +1722,13 @@ def impl_pair(c):
             obs["modelled"] = 1
             obs["same_tree"] = 1 if n1 == n2 else 0
     except Unsupported as ex:
-        obs["unsupported"] = str(ex)
+        if str(ex):
+            obs["unsupported"] = str(ex)
         k1, k2 = s1._generate_cache_key(), s2._generate_cache_key()
         eq = 1 if (k1 is not None and k2 is not None and k1.key == k2.key) else 0
     obs["eq"] = eq
     # ---- the property, directly ----
-    if eq and sorted(p1 or {}) == sorted(p2 or {}):  # same column_keys: same compiled-cache key
+    if eq and _pkeys(p1) == _pkeys(p2):  # same column_keys / executemany flag: same compiled-cache key
         c1, t1, nm1, ty1 = _compile_facts(s1, p1)
         c2, t2, nm2, ty2 = _compile_facts(s2, p2)
         if t1 != t2:
@@ -1549,17 +1737,19 @@ def impl_pair(c):
         if ty1 != ty2:
             obs["viol"] = "equal cache keys but different parameter types: %r vs %r (%s)%s" % (ty1, ty2, t1, tag)
             return obs
-        if (p1 or {}).keys() == (p2 or {}).keys() and c1 is not None:
+        if c1 is not None:
             d = _sqlite_dialect()
             for (sa, pa, sb, pb) in ((s1, p1, s2, p2), (s2, p2, s1, p1)):
                 ka, kb = sa._generate_cache_key(), sb._generate_cache_key()
-                kw = {"column_keys": sorted(pa)} if pa else {}
+                kw = _ckw(pa)
                 ca = sa.compile(dialect=d, cache_key=ka, **kw)
-                got = ca.construct_params(pb, extracted_parameters=kb.bindparams, _collected_params=kb.params)
                 cb = sb.compile(dialect=d, **kw)
-                want = cb.construct_params(pb)
-                gv = [repr(got.get(n)) for n in (ca.positiontup or [])]
-                wv = [repr(want.get(n)) for n in (cb.positiontup or [])]
+                gv, wv = [], []
+                for m in _psets(pb) or [None]:  # every parameter set of the execution
+                    got = ca.construct_params(m, extracted_parameters=kb.bindparams, _collected_params=kb.params)
+                    want = cb.construct_params(m)
+                    gv.append([repr(got.get(n)) for n in (ca.positiontup or [])])
+                    wv.append([repr(want.get(n)) for n in (cb.positiontup or [])])
                 if gv != wv:
                     obs["viol"] = "a compilation cached for one statement, given the extracted parameters of the other, yields %r; the other's own values are %r (%s)%s" % (gv, wv, t1, tag)
                     return obs
@@ -1567,8 +1757,11 @@ def impl_pair(c):
     for (sa, pa, ra, sb, pb, rb) in ((s1, p1, c["a"], s2, p2, c["b"]), (s2, p2, c["b"], s1, p1, c["a"])):
         e, _ = _engine(500)
         e.clear_compiled_cache()
-        _execute(500, sa, pa, False, orm)
-        v, _ = _compare_exec(500, sb, pb, orm, _is_ordered(fam, rb))
+        v, _ = _compare_exec(500, sa, pa, orm, _is_ordered(fam, ra))  # cold cache
+        if v:
+            obs["viol"] = "on a cold cache: " + v + tag
+            return obs
+        v, _ = _compare_exec(500, sb, pb, orm, _is_ordered(fam, rb))  # warm: the sibling's compilation may be reused
         if v:
             obs["viol"] = "after executing a sibling statement: " + v + tag
             return obs
@@ -1608,6 +1801,7 @@ def impl_hist(c):
     keys = []  # per step: (statement cache key, execution parameter names)
     populated = {}  # id(compiled) -> step index that compiled it
     populated_holes = {}  # id(compiled) -> hole labels (None: compiler-made bind), in the numbering of the compiled statement
+    populated_names = {}  # id(compiled) -> {bind key: label} of the statement's own bind parameters
     keep = []
     for i, st in enumerate(c["steps"]):
         fam, p, enabled = st["fam"], st["p"], st["on"]
@@ -1628,7 +1822,7 @@ def impl_hist(c):
             keep.append(comp)
         try:
             ck = stmt._generate_cache_key()
-            keys.append((ck.key if ck is not None else None, tuple(sorted(params or ()))))
+            keys.append((ck.key if ck is not None else None, _pkeys(params)))
         except Exception:
             keys.append((None, ()))
         if obs["viol"] is None and (sa != sb or ka != kb):
@@ -1654,8 +1848,8 @@ def impl_hist(c):
             modelled = False
             continue
         try:
-            if params or (fam == "select" and canon_recipe(fam, p)["pm"]):
-                raise Unsupported("execution-time / statement-level parameter sets are not in the model")
+            if fam == "select" and canon_recipe(fam, p)["pm"] == 2:
+                raise Unsupported("statement-level parameter sets (.params()) are not in the model")
             enc = Encoder(it)
             n = enc.encode(stmt)
             if ctx is None:
@@ -1663,17 +1857,36 @@ def impl_hist(c):
             hit = {CacheStats.CACHE_HIT: 1, CacheStats.CACHE_MISS: 0}.get(ctx.cache_hit, 2)
             hl = _hole_labels(enc, comp) if hit != 1 else populated_holes[id(comp)]
             populated_holes.setdefault(id(comp), hl)
+            if hit != 1:
+                nm2l = {}
+                for bp, nm in comp.bind_names.items():
+                    for b in [bp] + list(bp._cloned_set):
+                        lbl = dict.get(enc.am, id(b))
+                        if lbl is not None:
+                            nm2l[bp.key] = lbl
+                            break
+                populated_names.setdefault(id(comp), nm2l)
+            names = populated_names.get(id(comp), {})
             holes = [] if hit == 1 else [h for h in hl if h is not None]
-            # what construct_params hands to the execution, before IN-list expansion / literal rendering
-            cp = comp.construct_params(params, extracted_parameters=ctx.extracted_parameters, escape_names=False, _no_postcompile=True)
-            if any(nm not in cp for nm in (comp.positiontup or [])):
-                raise Unsupported("escaped parameter names")
-            vals = [it.atom(_canon_val(cp.get(nm)))[0] for nm, h in zip(comp.positiontup or [], hl) if h is not None]
-            ctxa = it.atom(("ctx", tuple(sorted(params)) if params else ()))[0]
+            # what DefaultExecutionContext._init_compiled got from construct_params for every parameter set
+            # (recomputed only where IN-list expansion has already replaced it)
+            psets = _psets(params) or [{}]
+            got = list(ctx.compiled_parameters)
+            if len(got) != len(psets):
+                raise Unsupported("parameter sets were regrouped")
+            vals, sets = [], []
+            for m, cp in zip(psets, got):
+                if any(nm not in cp for nm in (comp.positiontup or [])):
+                    cp = comp.construct_params(m or None, extracted_parameters=ctx.extracted_parameters, escape_names=False, _no_postcompile=True)
+                if any(nm not in cp for nm in (comp.positiontup or [])):
+                    raise Unsupported("escaped parameter names")
+                vals.append([it.atom(_canon_val(cp.get(nm)))[0] for nm, h in zip(comp.positiontup or [], hl) if h is not None])
+                sets.append(sorted([names[k], it.atom(_canon_val(m[k]))[0]] for k in m if k in names))
+            ctxa = it.atom(("ctx",) + _pkeys(params))[0]
             pn = _pack(n)
             if pn not in stmts:
                 stmts.append(pn)
-            steps.append([ctxa, stmts.index(pn), 1 if enabled else 0, holes])
+            steps.append([ctxa, stmts.index(pn), 1 if enabled else 0, holes, sets])
             outs.append([hit, vals])
         except Unsupported as ex:
             obs["unsupported"] = str(ex)
@@ -1709,6 +1922,10 @@ def oracle(c, obs):
 
 
 def match_finding(c, what):
+    if re.search(r"\[type-arg: (DATETIME|DATE|TIME)\.(storage_format|regexp)\]", what or ""):
+        return "C02-sqlite-datetime-storage-format-not-in-type-key"
+    if c.get("fam") == "sib" or (c.get("mode") == "hist" and c.get("steps") and c["steps"][0]["fam"] == "sib"):
+        return "C02-sibling-params-same-name"
     m = re.search(r"\[diff: ([a-z0-9_,]*)\]", what or "")
     if not m:
         return None
@@ -1759,6 +1976,11 @@ def _pairs_for(rng, fam, k, kmodel):
             base = _rand_recipe(rng, fam)
             for kk, vv in RELEVANT.get(coord, {}).items():
                 base[kk] = vv
+            if fam == "dml" and coord in ("v", "v2", "vs"):
+                # a literal in the statement: alternately a plain execution and an executemany
+                base["many"] = 1 - j % 2
+                base["kind"] = {"v": 0, "v2": 1 + j % 2, "vs": 0}[coord]
+                base["vals"] = {"v": 0, "v2": 0, "vs": 1}[coord]
             if fam == "select" and coord in ("limit", "offset", "order", "fu") and base["setop"]:
                 base["setop"] = 0
             if fam == "select" and coord not in ("group",) and coord in ("cols", "lab", "ltype", "over", "fname", "casttype", "order"):
@@ -1796,7 +2018,7 @@ def _history(rng, fam_mix):
                 p["limit"] = p["offset"] = p["fu"] = 0
                 p["group"] = 0
         steps.append({"fam": fam, "p": p, "on": rng.random() < 0.85})
-    return {"in": [cap] + [_rtree(st["fam"], st["p"]) + [int(st["on"])] for st in steps], "mode": "hist", "cap": cap, "steps": steps, "kind": "history-%s-cap%d" % (fam, cap), "model": True, "try_model": fam == "select"}
+    return {"in": [cap] + [_rtree(st["fam"], st["p"]) + [int(st["on"])] for st in steps], "mode": "hist", "cap": cap, "steps": steps, "kind": "history-%s-cap%d" % (fam, cap), "model": True, "try_model": fam in ("select", "dml")}
 
 
 def gen_cases(rng, tier):
@@ -1807,6 +2029,16 @@ def gen_cases(rng, tier):
     cases += _pairs_for(rng, "select", 20 if thorough else 4, 6 if thorough else 1)
     cases += _pairs_for(rng, "dml", 12 if thorough else 3, 4 if thorough else 1)
     cases += _pairs_for(rng, "orm", 8 if thorough else 2, 0)
+    for tc in range(TYPES["tcls"]):  # every type class x constructor argument x pairs of {None, 0, False, '', 2, True}
+        for ar in range(TYPES["arg"]):
+            for i, j in (_TYPE_PAIRS_ALL if thorough else _TYPE_PAIRS_QUICK):
+                a = {"tcls": tc, "arg": ar, "va": i, "v": 0}
+                b = dict(a, va=j)
+                cases.append({"in": [_rtree("types", a), _rtree("types", b)], "mode": "pair", "fam": "types", "a": a, "b": b, "kind": "pair-types:va", "model": True})
+    for i in range(3):
+        a = {"va": i, "vb": (i + 1) % 4}
+        b = {"va": (i + 2) % 4, "vb": i}
+        cases.append({"in": [_rtree("sib", a), _rtree("sib", b)], "mode": "pair", "fam": "sib", "a": a, "b": b, "kind": "pair-sib:values", "model": False})
     nr = 400 if thorough else 40
     for j in range(nr):
         fam = rng.choice(["select", "select", "dml"])
